@@ -195,6 +195,8 @@ where
                                 }
                             }
 
+                            #[cfg(getong_stateright_verif)]
+                            crate::job_market::verif::yield_point("after_trace");
                             seed = rng.gen();
                             log::trace!("{}: Generated new thread seed={}", t, seed);
                         }
